@@ -63,6 +63,8 @@ def broken_obligations(build, engine, prop):
                     broken.append({"theorem": f"translated function {fname} does not compile", "message": msg[:300]})
             else:
                 group = os.path.basename(file)[2:-5]
+                if group.endswith("Code"):   # Props/Tr<group>Code.lean: the property theorems composed with the equivalences
+                    group = group[:-4]
                 if any(prop in sp["props"] for sp in trspecs.SPECS if sp["group"] == group):
                     name = None
                     for i in range(min(line, len(src_lines)) - 1, -1, -1):
@@ -130,6 +132,8 @@ def _build_and_audit(ctx, engine):
     tr_specs = [sp for sp in trspecs.SPECS if prop in sp["props"]]
     tr_groups = sorted({sp["group"] for sp in tr_specs})
     tr_deps = [f"Tr{g}" for g in tr_groups]
+    tr_deps += [f"Tr{g}Code" for g in tr_groups
+                if os.path.exists(os.path.join(common.LEAN, "FinamModel", "Props", f"Tr{g}Code.lean"))]
     own = ([f"Props.{prop}", "Props.Gen", "Basic", "Generated"] + list(getattr(engine, "MODULES", []))
            + [f"Props.{d}" for d in getattr(engine, "THEOREM_DEPS", [])]
            + (["PyPrelude"] if tr_specs else []) + [f"Props.{d}" for d in tr_deps])
